@@ -66,15 +66,33 @@ Theorem C20_dispatch_none :
 Proof. exact dispatch_none. Qed.
 Print Assumptions C20_dispatch_none.
 
-(* clearing the report restores every overridden class attribute, after ANY history of overrides and clears *)
+(* clearing a report restores every class attribute overridden through it, after ANY history of overrides and clears
+   through ANY reports *)
+Theorem C20_clear_restores_the_reports_classes :
+  forall s0 ops r, (forall c f, bk s0 c f = None) ->
+    forall c, ov (crun s0 ops) r c = true -> forall f, own (cstep (crun s0 ops) (Clear r)) c f = own s0 c f.
+Proof. exact clear_restores_the_reports_classes. Qed.
+Print Assumptions C20_clear_restores_the_reports_classes.
+
+(* once every report used has been cleared, in any order, every class is as it was before the first override *)
+Theorem C20_clearing_every_report_restores :
+  forall s0 ops rs, (forall c f, bk s0 c f = None) -> (forall r c, ov s0 r c = false) ->
+    Forall (fun o => In (report_of o) rs) ops ->
+    forall c f, own (crun (crun s0 ops) (map Clear rs)) c f = own s0 c f.
+Proof. exact clearing_every_report_restores. Qed.
+Print Assumptions C20_clearing_every_report_restores.
+
+(* the one-report case *)
 Theorem C20_override_clear_restores :
-  forall s0 ops, (forall c f, bk s0 c f = None) ->
-    forall c f, own (cstep (crun s0 ops) Clear) c f = own s0 c f.
+  forall s0 ops r, (forall c f, bk s0 c f = None) -> (forall r c, ov s0 r c = false) ->
+    Forall (fun o => report_of o = r) ops ->
+    forall c f, own (cstep (crun s0 ops) (Clear r)) c f = own s0 c f.
 Proof. exact override_clear_restores. Qed.
 Print Assumptions C20_override_clear_restores.
 
 Theorem C20_override_clear_restores_lookup :
-  forall parent fuel s0 ops, (forall c f, bk s0 c f = None) ->
-    forall c f, lookup parent (cstep (crun s0 ops) Clear) fuel c f = lookup parent s0 fuel c f.
+  forall parent fuel s0 ops r, (forall c f, bk s0 c f = None) -> (forall r c, ov s0 r c = false) ->
+    Forall (fun o => report_of o = r) ops ->
+    forall c f, lookup parent (cstep (crun s0 ops) (Clear r)) fuel c f = lookup parent s0 fuel c f.
 Proof. exact override_clear_restores_lookup. Qed.
 Print Assumptions C20_override_clear_restores_lookup.
